@@ -41,6 +41,7 @@ struct http_connection {
 	http_parser parser;
 	http_parser_settings parser_settings;
 	const struct http_server *server;
+	const struct url_handler *handler;
 	unsigned int status_code;
 	bool is_local_connection;
 	unsigned int compression_level;
